@@ -64,6 +64,7 @@ def run(ctx):
     ctx.assume("MockProvider flavours are the environment (bound to the provider contract by C16)", "virtual clock; ageing 0",
                "content versions are identified by their bytes; every user write uses fresh bytes")
     ctx.model_check("SysMC", "MC_SysMC.cfg", "design: LastCopy/ContentOK guards make NoLoss inductive for any engine", workers=4)
+    sc.run_exemplars(ctx, CLAUSES)
     p = plan(ctx)
     exhaustive = True
     pool = []
